@@ -584,3 +584,60 @@ func (p *Prog) branchStarts(f *Func, pred func(Fact) bool) []*Block {
 	}
 	return out
 }
+
+// TypeOfFunc: the signature of a declared function or literal.
+func (p *Prog) TypeOfFunc(f *Func) (*types.Signature, bool) {
+	if f.Obj != nil {
+		sig, ok := f.Obj.Type().(*types.Signature)
+		return sig, ok
+	}
+	if f.Lit != nil {
+		sig, ok := p.TypeOf(f.Lit).(*types.Signature)
+		return sig, ok
+	}
+	return nil, false
+}
+
+// enclosingIfFacts: the facts established by the if statements of root that
+// enclose n (then-branch: the condition holds; else-branch: it does not). A
+// condition that is a boolean local defined by a side-effect-free expression
+// stands for that expression. Used for statements that are not CFG nodes
+// themselves (break, continue).
+func (p *Prog) enclosingIfFacts(f *Func, root ast.Node, n ast.Node) []Fact {
+	var out []Fact
+	var stack []ast.Node
+	ast.Inspect(root, func(x ast.Node) bool {
+		if x == nil {
+			stack = stack[:len(stack)-1]
+			return true
+		}
+		if _, isLit := x.(*ast.FuncLit); isLit {
+			return false
+		}
+		stack = append(stack, x)
+		if x == n {
+			for i := len(stack) - 2; i >= 0; i-- {
+				is, ok := stack[i].(*ast.IfStmt)
+				if !ok {
+					continue
+				}
+				cond := is.Cond
+				if id, isID := unparen(cond).(*ast.Ident); isID {
+					if o := p.ObjOf(id); o != nil {
+						if d, okD := p.SingleDef(f, o); okD && d.Rhs != nil && pureBoolExpr(d.Rhs) {
+							cond = d.Rhs
+						}
+					}
+				}
+				switch {
+				case is.Body.Pos() <= n.Pos() && n.End() <= is.Body.End():
+					out = append(out, p.factsOfExpr(cond, true)...)
+				case is.Else != nil && is.Else.Pos() <= n.Pos() && n.End() <= is.Else.End():
+					out = append(out, p.factsOfExpr(cond, false)...)
+				}
+			}
+		}
+		return true
+	})
+	return out
+}
